@@ -3062,6 +3062,16 @@ class StateEngine(object):
 
                     if state.get("End"):
                         handle_terminal_state(state_type, event, id)
+                        """
+                        handle_terminal_state only acknowledges the event if
+                        this Map state is not itself running in a Branch or
+                        Iteration. If it is, the result is handed to
+                        asl_state_collect_results which does not hold the IDs
+                        of Map/Parallel state events (as those are normally
+                        acknowledged once their branches have been launched)
+                        so acknowledge it here, it is a no-op if already done.
+                        """
+                        self.event_dispatcher.acknowledge(id)
                     else:
                         error_type, error_message = self.change_state(
                             state_machine, state_type, state.get("Next"), event
